@@ -17,6 +17,12 @@ def selftest_table():
         rows.append("| `%s` | %s | %s | %s |" % (r["id"], r["desc"], {True: "pass", False: "FAIL (mutant visible to the pinned suite)", None: "n/a"}[r.get("repo_tests_pass")], ch))
     return "\n".join(rows) + "\n"
 
+try:
+    SUMMARIES = json.load(open(os.path.join(VERIF, "seeded", "summaries.json")))
+except (OSError, ValueError):
+    SUMMARIES = {}
+
+
 def seeded_table():
     rows = ["| seeded change | breaks | what it does / what it needs to manifest | confirmed | caught by (quick tier) |", "|---|---|---|---|---|"]
     for d in sorted(glob.glob(os.path.join(VERIF, "seeded", "*"))):
@@ -24,7 +30,7 @@ def seeded_table():
         if not os.path.exists(mp):
             continue
         m = json.load(open(mp))
-        summ = m.get("summary", "see notes.md")
+        summ = m.get("summary") or SUMMARIES.get(os.path.basename(d), "see notes.md")
         conf = "yes" if m.get("kept") else "NO (not kept)"
         target = m["breaks_property"]
         caught = m.get("caught_by", [])
